@@ -174,8 +174,22 @@ func (c *netFD) connect(ctx context.Context, la, ra syscall.Sockaddr) (rsa sysca
 var (
 	errMissingAddress = errors.New("missing address")
 	errCanceled       = errors.New("operation was canceled")
-	errIOTimeout      = errors.New("i/o timeout")
+	// errIOTimeout keeps the historical "i/o timeout" text for context.DeadlineExceeded
+	// (see mapErr) and, like the net package's own error, reports Timeout().
+	errIOTimeout error = &timeoutError{}
 )
+
+// timeoutError is returned for an expired dial deadline.
+// errors.Is(errIOTimeout, context.DeadlineExceeded) returns true.
+type timeoutError struct{}
+
+func (e *timeoutError) Error() string   { return "i/o timeout" }
+func (e *timeoutError) Timeout() bool   { return true }
+func (e *timeoutError) Temporary() bool { return true }
+
+func (e *timeoutError) Is(err error) bool {
+	return err == context.DeadlineExceeded
+}
 
 // mapErr maps from the context errors to the historical internal net
 // error values.
